@@ -3,6 +3,7 @@ models — per field: required?, evaluated default value (JSON form), annotation
 import enum
 import importlib
 import json
+import re
 import sys
 
 
@@ -32,7 +33,7 @@ def main():
             fields = {}
             for fname, f in cls.model_fields.items():
                 req = f.is_required()
-                fields[f.alias or fname] = {"python_name": fname, "required": req, "annotation": repr(f.annotation),
+                fields[f.alias or fname] = {"python_name": fname, "required": req, "annotation": re.sub(r" at 0x[0-9a-f]+", "", repr(f.annotation)),
                                             "default": None if req else jsonable(f.get_default(call_default_factory=True))}
             desc[name] = fields
     json.dump(desc, open(out, "w"), sort_keys=True)
